@@ -45,6 +45,13 @@ def get_imported_names(ast_tree: ast.Module) -> Set[str]:
     }
 
 
+# Statements that run only some of their bodies (python >= 3.10 and >= 3.11 respectively): what
+# they assign is not surely assigned afterwards.
+_CONDITIONAL_BODIES = tuple(
+    getattr(ast, name) for name in ("Match", "TryStar") if hasattr(ast, name)
+)
+
+
 def code_dependencies_outputs(code: Sequence[ast.AST]) -> Tuple[Set[str], Set[str], Set[str]]:
     """Get required and created names in code.
 
@@ -68,7 +75,7 @@ def code_dependencies_outputs(code: Sequence[ast.AST]) -> Tuple[Set[str], Set[st
         temp_children = []
         children = []
         body_completes = True
-        if isinstance(node, (ast.While, ast.For, ast.If)):
+        if isinstance(node, (ast.While, ast.For, ast.AsyncFor, ast.If)):
             temp_children = (
                 [node.test] if isinstance(node, (ast.If, ast.While)) else [node.target, node.iter]
             )
@@ -84,13 +91,16 @@ def code_dependencies_outputs(code: Sequence[ast.AST]) -> Tuple[Set[str], Set[st
             # creates is only maybe created when the statement after the with is reached.
             body_completes = False
 
-        elif isinstance(node, (ast.Try, ast.ClassDef, ast.FunctionDef, ast.AsyncFunctionDef)):
+        elif isinstance(
+            node,
+            (ast.Try, ast.ClassDef, ast.FunctionDef, ast.AsyncFunctionDef) + _CONDITIONAL_BODIES,
+        ):
             required_names.update(name.id for name in core.walk(node, ast.Name))
             required_names.update(
                 func.name
                 for func in core.walk(node, (ast.FunctionDef, ast.AsyncFunctionDef, ast.ClassDef))
             )
-            if isinstance(node, ast.Try):
+            if isinstance(node, (ast.Try,) + _CONDITIONAL_BODIES):
                 maybe_created_names.update(
                     name.id for name in core.walk(node, ast.Name(ctx=ast.Store))
                 )
